@@ -101,6 +101,9 @@ def gen(st, tier):
     spec["modes"] = [[f.choice(["none", "public", "private", "wrong", "private"]), f.random() < 0.7,
                       f.choice(["path", "stream"])] for _ in range(len(spec["damage"]))]
     if kind == "bec2":
+        for i_, m_ in enumerate(spec["modes"]):
+            if i_ % 4 == 3:
+                m_[2] = "iter"      # the decryptor set is handed over as a one-shot iterator
         # faulty peer: a pluggable decryptor (the seam for hardware crypto units) that hands back a payload
         # of unexpected size for an otherwise valid file
         spec["damage"].append([])
@@ -434,6 +437,13 @@ def run(case):
 
                 def parse():  # noqa: F811
                     return files.read_file("bec2", fs, env, name, via, check, None, decs_once)
+            if kind == "bec2" and via == "iter":
+                # the decryptor set is an Iterable: here a one-shot iterator
+                out.probes["decryptors-as-iterator"] += 1
+                mode_ = mode
+
+                def parse():  # noqa: F811
+                    return env.bec2file.Bec2File.read_file(name, iter(_decryptors(mode_, case, w, fs)), check)
             res, val = guarded(out, what_, parse, len(damaged), narrow, ctx)
             out.ev("parse", di, res, val if res != "ok" else "")
             if res == "error":
